@@ -63,7 +63,7 @@ struct Cfg {
   bool mask = false, turbulence = false, live_output = false;
   bool gravity = false, cooling = false, restart_midway = false;
   int live_mask = 7; // which live outputs are switched on
-  int source_type = 0; // 0 SingleStar, 1 AsciiFile, 2 UniformRandom, 3 SingleSupernova, 4 DiscPatch
+  int source_type = 0; // 0 SingleStar, 1 AsciiFile, 2 UniformRandom, 3 SingleSupernova, 4 DiscPatch, 5 Caproni (positions on galactic scales: only without radiation)
   bool feedback = false;
   // C14 (system level): where the process dies during a restart dump
   double crash_frac = 0.;  // fraction of the numbered file operations
@@ -284,6 +284,13 @@ struct Cfg {
         << vec(sides, "m") << "\n  random seed: 42\n"
         << sfmt("  update interval: %.17g s\n", 0.05 * total_time)
         << "  starting time: 0. s\n  output sources: false\n";
+    } else if (source_type == 5) {
+      o << "PhotonSourceDistribution:\n  type: Caproni\n"
+        << "  number function norm: 0.05\n  UV luminosity norm: 1.\n"
+        << "  random seed: 44\n"
+        << sfmt("  update interval: %.17g s\n", 0.05 * total_time)
+        << "  starting time: 0. s\n  boost factor: 1.\n"
+        << "  output sources: false\n";
     } else if (source_type == 4) {
       o << "PhotonSourceDistribution:\n  type: DiscPatch\n"
         << sfmt("  source lifetime: %.17g s\n", 0.3 * total_time)
